@@ -10,6 +10,17 @@ CHECKS = {
          "Generated-input exploration: thousands of random nests (7 dtypes, rank 0-3 incl. size 0, 5 container kinds) and stacked real environment states are pushed through tree_transpose/tree_slice/tree_add_element and the equality helpers and compared with oracles written from the statement (np.stack frame condition, Python-list equality). Pure functions over a small input grammar: sampling at this density is the appropriate level.",
          "Trusts numpy's stack/tolist and JAX array construction; NaN leaves and structurally different pairs are outside the domain.", "3/C19"),
 }
+CHECKS.update({
+ "C01": ("Hypothesis-generated reset keys x mask-relative episode plans (legal/illegal/raw/survive) over finite constructor menus; independent spec-walker oracle cross-checked with spec.validate; jax.eval_shape for shapes/dtypes of all inputs at once",
+         "Generated-history exploration of all 23 environments x 2-8 constructor configurations each: every emitted observation/reward/discount from reset to the terminal step (time-limit boundary, invalid move, completion - distribution reported in evidence) is validated against the declared specs by an independent walker; generate_value() membership and acceptance by step are checked per configuration. Shapes and dtypes are decided for all inputs per configuration through abstract evaluation; bounds need search, which is what this level provides.",
+         "Finite configuration menus (vf/envs.py); extras and post-LAST values are out of scope; Sokoban uses offline generators.", "3/C01"),
+ "C03": ("Hypothesis-generated keys x episode plans continued past LAST; FIRST/MID/LAST protocol monitor over the whole history",
+         "Generated-history exploration: a monitor checks reset (FIRST, zero reward, unit discount, spec shapes) and every step including up to 4 steps issued after the first LAST (type in {MID, LAST}, discount in [0,1], MID not all-zero, LAST all-zero with the documented LBF truncation exception) on all 23 environments; evidence reports how many histories reached LAST per environment and cause.",
+         "LBF LAST at step_count >= time_limit may carry discount one; finite menus.", "3/C03"),
+ "C11": ("metamorphic twin env(T) vs env(T+5) on identical key and concrete actions, T in {1,2,3,7,default,None}; survive-biased Hypothesis plans; structural-horizon bound from the reset instance for the 10 untimed envs",
+         "Generated-history exploration with a metamorphic oracle that needs no model of 'other reasons': the same key and actions are played in env(T) and env(T+5); step types must agree before T, env(T) must be LAST exactly at T. Policies are look-ahead 'survive' plans so that most episodes reach T (reported per env). Untimed CO environments are checked against a horizon computed from the instance (items, nodes, cells, operations).",
+         "Assumes the time limit affects termination only; documented None defaults (rows*cols, 1000).", "3/C11"),
+})
 NOT_APPLICABLE = {}
 PENDING_REASON = "check not built yet in this revision of /verif (work in progress); the technique applies and the design is in DESIGN.md section 3"
 
